@@ -24,6 +24,9 @@ def main():
     nshards, n = (16, 200) if tier == "quick" else (32, 2000)
     jobs = [dict(seed="%d/%s/%d" % (common.seed(), PROP, s), n=n, scripts=(2 if tier == "quick" else 6)) for s in range(nshards)]
     R = common.Run(PROP, "translation_validation", RULE)
+    for si, j in enumerate(jobs):
+        # every number of public values from 0 to 130 once (with a few private values and constraints), spread over the shards
+        j["sizes"] = [[npub, (npub * 7 + 3) % 5, (npub * 3) % 4] for npub in range(si, 131, len(jobs))]
     boot.spread_pyflags(jobs)
     for job, res, err in shard.run_jobs("vf.checks.C10", "worker", jobs, timeout=3600, nproc=16):
         if err:
@@ -108,6 +111,17 @@ def validate(R, snap, cwd, det, klass):
     return len(problems)
 
 
+def prove_in(rt, wd, home):
+    import contextlib
+    import io
+    os.chdir(wd)
+    try:
+        with contextlib.redirect_stdout(io.StringIO()), contextlib.redirect_stderr(io.StringIO()):
+            rt.backend.prove()
+    finally:
+        os.chdir(home)
+
+
 def worker(job):
     from vf import realrun
     from vf.gen import prog as G
@@ -121,8 +135,26 @@ def worker(job):
     p = rt.backend.get_modulus()
     home = os.getcwd()
     reuse = tempfile.mkdtemp(prefix="c10same-", dir=home)     # a directory in which runs follow each other (files are overwritten)
-    for n in range(job["n"]):
+    sweep = job.get("sizes") or []
+    for n in range(job["n"] + len(sweep)):
         hostile = rnd.random() < 0.5
+        if n >= job["n"]:
+            npub, npriv, ncons = sweep[n - job["n"]]
+            src, inputs = realrun.sized_program(npub, npriv, ncons)
+            out = realrun.run_src(rt, src, inputs, 16, 8)
+            if out.exc is not None:
+                R.violation("sized-program-raised", "a program with %d public and %d private values raised %r" % (npub, npriv, out.exc), src=src)
+                continue
+            snap = realrun.boundary_snapshot(rt)
+            wd = tempfile.mkdtemp(prefix="cszs-", dir=home)
+            try:
+                prove_in(rt, wd, home)
+                validate(R, snap, wd, dict(src=src, inputs=inputs, public_values=npub, private_values=npriv, constraints=len(snap["constraints"])), "snarkjs")
+            finally:
+                shutil.rmtree(wd, ignore_errors=True)
+            R.count("sizes_swept")
+            R.case(cell="%s|size-sweep|pub%d" % ("snarkjs", min(npub // 32, 4)), key=("snarkjs", "size", npub, npriv, ncons))
+            continue
         if n == 1:
             # one large circuit per worker (block / buffer boundaries of the writers)
             src, inputs = "x = PrivVal(I[0])\ny = PubVal(I[1])\nfor k in range(%d):\n    y = y * x + k\nz = y.val()\n" % rnd.randint(4200, 9000), [3, -2]
